@@ -2,7 +2,7 @@
    Only statements, each closed by [exact] of a lemma proved in proofs/LimitsProofs.v, with
    Print Assumptions beneath; Examples show that the hypotheses are satisfiable and pin the
    effective thresholds of the configuration the model was written against. *)
-From Coq Require Import ZArith List Bool Permutation Sorted String.
+From Coq Require Import ZArith List Bool Permutation Sorted String Lia.
 Require Import NS.theories.GenLimits NS.theories.Limits NS.proofs.LimitsProofs.
 Import ListNotations.
 Open Scope Z_scope.
@@ -372,8 +372,11 @@ Example ex_counts_wf :
   counts_wf (counts_of_program (repeat (SDecl 0) 3)) /\
   counts_consistent (counts_of_program (repeat (SDecl 0) 3)).
 Proof.
-  unfold counts_wf, counts_consistent. vm_compute.
-  repeat split; try discriminate; try reflexivity; repeat constructor; vm_compute; discriminate.
+  rewrite declarations_program.
+  unfold counts_wf, counts_consistent, fn_wf, n_functions, sum_of, u32_max, u64_max.
+  cbn [per_fn n_locals n_scopes n_statements n_calls total_ops total_blocks fc_blocks fc_ops
+       fc_locals fold_left List.length Z.of_nat].
+  repeat split; try (repeat constructor; cbn; lia); lia.
 Qed.
 
 (* a small shape with every construct: what count_program measures for it (the numbers are
@@ -382,5 +385,5 @@ Example ex_shape_counts :
   counts_of_program
     [SDecl 0; SFn 1 [SReturn 0; SSimple 0]; SIf 0 [SReturn 0] true [SSimple 1];
      SLoop 0 [SIf 0 [SBreak] false []; SBlock [SDecl 0; SContinue]; SSimple 0]; SSimple 1]
-  = mkCounts [mkFn 14 12 2; mkFn 3 2 1] 3 8 14 2 14 17.
+  = mkCounts [mkFn 12 13 3; mkFn 3 2 1] 3 8 15 2 15 15.
 Proof. vm_compute. reflexivity. Qed.
